@@ -93,6 +93,15 @@ void submit(cocls::thread_pool &pool, int kind, int j, int stop_mode, std::vecto
         else pool.run_detached([&pool, j, tok] { ran(pool, j); });
         dsim::cell_set(SUBMITTED + j, 1);
         break; }
+    case 6: {   // a job that uses a short-lived pool of its own and destroys it - from a worker of the outer pool, which must stay one
+        auto tok = std::make_shared<Token>(j);
+        pool.run_detached([&pool, j, tok] {
+            ran(pool, j);
+            { cocls::thread_pool inner(1); auto f = inner.run([] { return 7L; }); if (f.wait() != 7) dsim::fail("C11.value", "private pool of job %d returned a wrong value", j); }
+            if (!is_current(pool) && !pool.is_stopped()) dsim::fail("C11.not_on_worker", "after job %d destroyed its private pool the thread no longer counts as a worker of the pool it serves", j);
+        });
+        dsim::cell_set(SUBMITTED + j, 1);
+        break; }
     default: {
         auto fut = std::make_unique<cocls::future<long>>(); auto p = fut->get_promise();
         k5(pool, *fut, j).detach();
@@ -114,7 +123,8 @@ void dsim_scenario() {
     int nsub = 1 + dsim::choose(3);            // submitter threads
     int stop_mode = dsim::choose(5);           // 0 destructor only, 1 owner stop() concurrently, 2 stop from a job on a worker, 3 two concurrent stop(), 4 stop before any submission
     int njobs[3], kinds[3][3]; int total = 0;
-    for (int s = 0; s < nsub; s++) { njobs[s] = 1 + dsim::choose(3); for (int k = 0; k < njobs[s]; k++) kinds[s][k] = dsim::choose(6); total += njobs[s]; }
+    int nprivate = 0;
+    for (int s = 0; s < nsub; s++) { njobs[s] = 1 + dsim::choose(3); for (int k = 0; k < njobs[s]; k++) { kinds[s][k] = dsim::choose(7); if (kinds[s][k] == 6 && nprivate++) kinds[s][k] = 4; } total += njobs[s]; }     // at most one job with a private pool
     if (stop_mode == 2) kinds[0][0] = 4;
     dsim::plan_note("workers=%d stop_mode=%d", nworkers, stop_mode);
     for (int s = 0; s < nsub; s++) { dsim::plan_note(" S%d:", s); for (int k = 0; k < njobs[s]; k++) dsim::plan_note("%d", kinds[s][k]); }
@@ -165,8 +175,8 @@ static void judge() {
     for (int j = 0; j < g_total; j++) {
         long kind = dsim::cell_get(KIND + j), r = dsim::cell_get(RAN + j), c = dsim::cell_get(CANCELLED + j);
         bool bare_kind = kind == 1 || kind == 3 || kind == 5;
-        if (kind == 4 && !r) { if (dsim::cell_get(TOKEN_GONE + j) == 1) { c = 1; } }      // closure destroyed without running = cancelled
-        if (kind == 4 && dsim::cell_get(TOKEN_GONE + j) != 1) dsim::fail("C11.closure_not_released", "run_detached closure of job %d destroyed %ld times", j, dsim::cell_get(TOKEN_GONE + j));
+        if ((kind == 4 || kind == 6) && !r) { if (dsim::cell_get(TOKEN_GONE + j) == 1) { c = 1; } }      // closure destroyed without running = cancelled
+        if ((kind == 4 || kind == 6) && dsim::cell_get(TOKEN_GONE + j) != 1) dsim::fail("C11.closure_not_released", "run_detached closure of job %d destroyed %ld times", j, dsim::cell_get(TOKEN_GONE + j));
         if (kind == 3) {   // the run(async) future reports the outcome
             for (int s = 0; s < 3; s++) for (auto &p : (*g_bare[s])) if (p.j == j && p.f->ready()) {
                 try { long v = p.f->value(); if (v != 300 + j || !r) dsim::fail("C11.value", "run(async) future of job %d: value %ld, ran %ld", j, v, r); }
